@@ -14,6 +14,9 @@ _dtype = dtype
 
 
 # ------------------------------------------------------------------------------------ constructors
+from ._core import dtype as _core_dtype
+
+
 def array(obj, dtype=None, copy=True, order=None, ndmin=0):
     if ndmin:
         raise ModelGap("array ndmin")
@@ -1762,8 +1765,28 @@ def nan_to_num(*a, **k):
     raise ModelGap("nan_to_num")
 
 
-def result_type(*a):
-    raise ModelGap("result_type")
+def result_type(*args):
+    """kind-level promotion (one width per kind in this model)"""
+    if not args:
+        raise ValueError("at least one array or dtype is required")
+    ks = []
+    for x in args:
+        if isinstance(x, ndarray):
+            ks.append(x.dtype.kind)
+        elif isinstance(x, MaskedArray):
+            ks.append(x._data.dtype.kind)
+        elif isinstance(x, _core_dtype) or isinstance(x, (type, str)):
+            ks.append(_dtype(x).kind)
+        else:
+            ks.append(_infer_kind([x]))
+    k = ks[0]
+    for k2 in ks[1:]:
+        k = _promote_arrays(k, k2)
+    return _dtype({'f': float, 'i': int, 'b': bool, 'O': object, 'U': str}[k])
+
+
+def promote_types(a, b):
+    return result_type(_dtype(a), _dtype(b))
 
 
 def issubdtype(a, b):
